@@ -123,15 +123,43 @@ pub fn gen_elf(rng: &mut Rng, trailing_nonload: bool, shifted_phys: bool) -> Vec
     }
     // ---- program header table: loads in ascending order, non-load headers anywhere
     let mut pht: Vec<Seg> = Vec::new();
-    let nonload_types = [0u32, 2, 4, 6, 0x6474e551, 0x70000000];
+    let nonload_types = [0u32, 2, 4, 6, 7, 0x6474e551, 0x6474e552, 0x70000000];
+    // a non-load header: random, or -- as NOTE / TLS / RELRO headers of real files are -- a sub-range of a
+    // load segment, or a range that straddles one end of the GOT
+    let loads: Vec<(u32, u32, u32, u32)> = segs.iter().map(|s| (s.vaddr, s.off, s.filesz, s.memsz)).collect();
+    let mk_nonload = |rng: &mut Rng, memmask: u32| -> Seg {
+        let ty = *rng.pick(&nonload_types);
+        let pdelta = if rng.chance(1, 2) { 0 } else { rng.u32() & 0xffff };
+        match rng.below(4) {
+            0 | 1 if !loads.is_empty() => {
+                let (v, off, fsz, msz) = loads[rng.below(loads.len() as u64) as usize];
+                let o = rng.below(msz.max(1) as u64) as u32;
+                let len = rng.below((msz - o.min(msz)) as u64 + 1) as u32;
+                Seg { ty, off: off.wrapping_add(o), vaddr: v + o, pdelta, filesz: len.min(fsz.saturating_sub(o)), memsz: len }
+            }
+            2 if got_size >= 8 => {
+                // contains the first (or only the last) entries of the GOT
+                let cut = 4 * rng.range(1, (got_size / 4 - 1).max(1) as u64) as u32;
+                let (lo, hi) = if rng.chance(2, 3) {
+                    (got_addr.saturating_sub(4 * rng.below(16) as u32), got_addr + cut)
+                } else {
+                    (got_addr + cut, got_addr + got_size + 4 * rng.below(16) as u32)
+                };
+                Seg { ty, off: rng.u32() & 0xffff, vaddr: lo, pdelta, filesz: hi - lo, memsz: hi - lo }
+            }
+            _ => Seg { ty, off: rng.u32() & 0xffff, vaddr: rng.u32() & 0xfffff, pdelta, filesz: rng.u32() & 0xffff, memsz: rng.u32() & memmask },
+        }
+    };
     for s in segs {
         while rng.chance(1, 4) {
-            pht.push(Seg { ty: *rng.pick(&nonload_types), off: rng.u32() & 0xffff, vaddr: rng.u32() & 0xfffff, pdelta: if rng.chance(1, 2) { 0 } else { rng.u32() & 0xffff }, filesz: rng.u32() & 0xffff, memsz: rng.u32() & 0xfffff });
+            let nl = mk_nonload(rng, 0xfffff);
+            pht.push(nl);
         }
         pht.push(s);
     }
     if trailing_nonload || rng.chance(1, 4) {
-        pht.push(Seg { ty: *rng.pick(&nonload_types), off: rng.u32() & 0xffff, vaddr: rng.u32() & 0xfffff, pdelta: if rng.chance(1, 2) { 0 } else { rng.u32() & 0xffff }, filesz: rng.u32() & 0xffff, memsz: rng.u32() & 0x7ffff });
+        let nl = mk_nonload(rng, 0x7ffff);
+        pht.push(nl);
     }
     // ---- symbols
     let nsym = rng.range(1, 200) as usize;
@@ -268,6 +296,18 @@ pub fn gen_elf(rng: &mut Rng, trailing_nonload: bool, shifted_phys: bool) -> Vec
     file
 }
 
+/// short blank-free string literals of the loader's current source text
+fn source_literals() -> Vec<String> {
+    let src = include_str!("elf.rs");
+    let mut out: Vec<String> = Vec::new();
+    for part in src.split('"').skip(1).step_by(2) {
+        if !part.is_empty() && part.len() <= 16 && part.bytes().all(|b| (0x21..0x7f).contains(&b) && b != b'\\' && b != b'{') && !out.iter().any(|x| x == part) {
+            out.push(part.to_string());
+        }
+    }
+    out
+}
+
 pub fn gen_args(rng: &mut Rng) -> String {
     let nwords = match rng.below(5) {
         0 => 0,
@@ -289,8 +329,27 @@ pub fn gen_args(rng: &mut Rng) -> String {
             1 => 200,
             _ => rng.range(1, 40),
         };
-        for _ in 0..len {
-            s.push((0x21 + rng.below(0x5e) as u8) as char);
+        // one word in four comes from the string literals of the CURRENT elf.rs (alone, as a suffix, as a prefix):
+        // a comparison against a fixed text in the loader is then exercised, whatever the text is
+        let dict = source_literals();
+        if !dict.is_empty() && rng.chance(1, 4) {
+            let lit = dict[rng.below(dict.len() as u64) as usize].clone();
+            let extra: String = (0..rng.range(1, 6)).map(|_| (0x21 + rng.below(0x5e) as u8) as char).collect();
+            match rng.below(3) {
+                0 => s.push_str(&lit),
+                1 => {
+                    s.push_str(&extra);
+                    s.push_str(&lit);
+                }
+                _ => {
+                    s.push_str(&lit);
+                    s.push_str(&extra);
+                }
+            }
+        } else {
+            for _ in 0..len {
+                s.push((0x21 + rng.below(0x5e) as u8) as char);
+            }
         }
         if w + 1 < nwords || rng.chance(1, 3) {
             blank(rng, &mut s, 1);
